@@ -50,6 +50,7 @@ type caseData struct {
 	Seed int64  `json:"seed"`
 	N    int    `json:"n"`
 	Only int    `json:"only,omitempty"` // replay aid: only the i-th sub-case (1-based)
+	Off  int    `json:"off,omitempty"`  // download/limits/update: index of the first enumerated scenario
 	File string `json:"file,omitempty"` // kind "scan" (development aid): scan this strace log
 }
 
@@ -83,7 +84,11 @@ func genCases(seed int64, tier string) []core.Case {
 			if mode != "" {
 				id = mode + "-" + id
 			}
-			out = append(out, core.Case{ID: id, Mode: mode, Data: core.J(caseData{Kind: kind, Seed: rng.Int63(), N: n})})
+			cd := caseData{Kind: kind, Seed: rng.Int63(), N: n}
+			if kind == "download" || kind == "limits" || kind == "update" {
+				cd.Off = i * n // these kinds enumerate a fixed scenario table: every case continues where the previous one stopped
+			}
+			out = append(out, core.Case{ID: id, Mode: mode, Data: core.J(cd)})
 		}
 	}
 	if tier == "thorough" {
@@ -97,7 +102,7 @@ func genCases(seed int64, tier string) []core.Case {
 		add("plugins", "strace", 1, 60)
 		add("mutants", "strace", 1, 60)
 		add("download", "strace", 1, 42)
-		add("update", "strace", 1, 40)
+		add("update", "strace", 1, 160)
 	} else {
 		add("archives", "", 20, 75)
 		add("plugins", "", 6, 75)
@@ -187,11 +192,11 @@ func run(c core.Case, verbose bool) core.Result {
 			}
 			res.Stat("byte_mutants_generated", 1)
 		case "download":
-			rc.runDownload(i)
+			rc.runDownload(d.Off + i)
 		case "limits":
-			rc.runLimit(i)
+			rc.runLimit(d.Off + i)
 		case "update":
-			rc.runUpdate(i)
+			rc.runUpdate(d.Off + i)
 		}
 	}
 	if res.Sample == nil {
@@ -288,7 +293,7 @@ func rawListing(t []byte) string {
 func post(a *core.Agg) string {
 	var miss []string
 	need := map[string]int64{"subcases_LoadArchive": 500, "subcases_Expand": 500, "subcases_Extract": 500, "subcases_Pull": 100, "subcases_DownloadTo": 60,
-		"subcases_Manager.Update": 60, "producer_offset_checks": 20, "over_limit_archives_rejected": 20, "under_limit_controls_accepted": 8,
+		"subcases_Manager.Update": 60, "update_scenarios_with_symlink_at_sibling_or_temporary_name": 60, "producer_offset_checks": 20, "over_limit_archives_rejected": 20, "under_limit_controls_accepted": 8,
 		"update_controls_wrote_regular_lock": 4, "accepted_Expand": 20, "accepted_Extract": 5, "accepted_Pull": 5, "accepted_DownloadTo": 10,
 		"subcases_on_layouts_with_planted_symlinks_or_files": 500}
 	for k, n := range need {
